@@ -91,8 +91,10 @@ def strat_case(draw, parsers="some", containers=("df", "df", "lf_full"), drop_ra
 # ---------------------------------------------------------------------------------- helpers
 
 
-def domain_skip(spec, table):
-    """reason the (spec, table) pair is outside the sound polars/reference domain, else None"""
+def domain_skip(spec, table, semantics=True):
+    """reason the (spec, table) pair is outside the sound polars/reference domain, else None
+    (semantics=False: only what cannot be built / is not a schema definition - for oracles that judge the error channel,
+    not the verdict)"""
     if not table["columns"]:
         return "zero-column table (a polars frame without columns cannot carry a row count)"
     if any(c.get("dtype") not in SHARED for c in spec["columns"]):
@@ -103,6 +105,8 @@ def domain_skip(spec, table):
     why = spec_type_inconsistency(spec)
     if why:
         return why
+    if not semantics:
+        return None
     if na_false_undefined(spec, table):
         return "ignore_na=False with a predicate that is true on NaN (pandas) / null on null (polars): undefined"
     return temporal_cross_kind(spec, table) or coercion_outside_shared_semantics(spec, table)
@@ -368,7 +372,7 @@ def eval_c06(case):
     """any (schema, polars frame, options): documented channel only; schema / config / data unchanged."""
     ev = Eval()
     spec, table = case["spec"], case["table"]
-    why = domain_skip(spec, table)
+    why = domain_skip(spec, table, semantics=False)
     if why:
         ev.skipped = why
         return ev
